@@ -1,2 +1,164 @@
+// uci-inproc: runs the engine's real uci_loop on scripted input (through the add-only
+// cfg(rce_verif) entry point) and records, after every command, the session position as the
+// observer hook shows it. Output: one ndjson batch for spec/UciTrace.tla (mode C08).
+//
+// Input file: one session per block, blocks separated by a line "----"; every other line is
+// sent to the engine verbatim.
+
+use std::io::{BufRead, Write};
+use std::sync::{Arc, Mutex};
+
+use crate::board::zkey::ZKey;
+use crate::board::{Board, BoardBuilder};
+use crate::h_proj::*;
 use crate::Args;
-pub fn cmd_inproc(_a: &Args) { unimplemented!() }
+
+fn tokens_json(line: &str) -> String {
+    let v: Vec<String> = line
+        .split_whitespace()
+        .map(|t| chars_json(t))
+        .collect();
+    format!("[{}]", v.join(","))
+}
+
+/// Structure of a position line in the documented form `position startpos|fen F [moves ...]`
+/// (F has four to six fields): (start, fen, moves, wellformed).
+fn position_fields(line: &str) -> (String, String, Vec<String>, bool) {
+    let t: Vec<&str> = line.split_whitespace().collect();
+    let none = ("none".to_string(), String::new(), Vec::new(), false);
+    if t.len() < 2 || t[0] != "position" {
+        return none;
+    }
+    if t[1] == "startpos" {
+        if t.len() == 2 {
+            return ("startpos".into(), String::new(), Vec::new(), true);
+        }
+        if t[2] == "moves" {
+            return ("startpos".into(), String::new(), t[3..].iter().map(|x| x.to_string()).collect(), true);
+        }
+        return ("startpos".into(), String::new(), Vec::new(), false);
+    }
+    if t[1] == "fen" {
+        let rest = &t[2..];
+        let n = rest.iter().take(6).position(|&x| x == "moves").unwrap_or(rest.len().min(6));
+        if n < 4 {
+            return none;
+        }
+        let fen = rest[..n].join(" ");
+        if rest.len() == n {
+            return ("fen".into(), fen, Vec::new(), true);
+        }
+        if rest[n] == "moves" {
+            return ("fen".into(), fen, rest[n + 1..].iter().map(|x| x.to_string()).collect(), true);
+        }
+        return ("fen".into(), fen, Vec::new(), false);
+    }
+    none
+}
+
+/// Keys of the positions along `position ... moves ...` as the harness replays them on its own
+/// board (used only to ask the session board which earlier positions it remembers).
+fn prefix_keys(line: &str) -> Vec<ZKey> {
+    let toks: Vec<&str> = line.split_whitespace().collect();
+    let mut out = Vec::new();
+    if toks.first() != Some(&"position") || toks.len() < 2 {
+        return out;
+    }
+    let r = std::panic::catch_unwind(|| {
+        let mut keys = Vec::new();
+        let (mut board, rest): (Board, &[&str]) = if toks[1] == "startpos" {
+            (BoardBuilder::construct_starting_board().build(), &toks[2..])
+        } else if toks[1] == "fen" && toks.len() >= 8 {
+            (Board::from_fen(&toks[2..8].join(" ")), &toks[8..])
+        } else {
+            return keys;
+        };
+        keys.push(board.zkey);
+        if rest.first() == Some(&"moves") {
+            for m in &rest[1..] {
+                match board.find_move(m) {
+                    Ok(p) => {
+                        board.make_move(p);
+                        keys.push(board.zkey);
+                    }
+                    Err(_) => break,
+                }
+            }
+        }
+        keys
+    });
+    if let Ok(k) = r {
+        out = k;
+    }
+    out
+}
+
+pub fn cmd_inproc(args: &Args) {
+    let input = args.str("in", "work/uci/sessions.txt");
+    let out = args.str("out", "work/uci/inproc.ndjson");
+    crate::board::zkey::ZTable::init();
+    std::panic::set_hook(Box::new(|_| {}));
+    let text = std::fs::read_to_string(&input).expect("sessions file");
+    let mut w = std::io::BufWriter::new(std::fs::File::create(&out).unwrap());
+    writeln!(w, "{}", ztable_event()).unwrap();
+    let mut nsess = 0usize;
+    let mut ncmd = 0usize;
+    for block in text.split("\n----\n") {
+        let lines: Vec<String> = block
+            .lines()
+            .map(|l| l.to_string())
+            .filter(|l| l.trim() != "----")
+            .collect();
+        if lines.iter().all(|l| l.trim().is_empty()) {
+            continue;
+        }
+        nsess += 1;
+        writeln!(w, "{{\"ev\":\"session\",\"n\":{nsess}}}").unwrap();
+        let events: Arc<Mutex<Vec<String>>> = Arc::new(Mutex::new(Vec::new()));
+        let ev2 = events.clone();
+        // keys the harness wants the session board asked about (all prefix positions seen so far)
+        let known: Arc<Mutex<Vec<ZKey>>> = Arc::new(Mutex::new(Vec::new()));
+        let known2 = known.clone();
+        crate::verif::set_observer(Box::new(move |line: &str, ok: bool, board: &Board| {
+            let a = project_light(board);
+            let mut kn = known2.lock().unwrap();
+            for k in prefix_keys(line) {
+                if !kn.contains(&k) {
+                    kn.push(k);
+                }
+            }
+            let hr: Vec<String> = kn
+                .iter()
+                .filter(|k| board.position_reached(**k))
+                .map(|k| chunks(key_u64(*k)))
+                .collect();
+            let (start, fen, moves, wf) = position_fields(line);
+            let mv: Vec<String> = moves.iter().map(|m| chars_json(m)).collect();
+            ev2.lock().unwrap().push(format!(
+                "{{\"ev\":\"cmd\",\"line\":{:?},\"tokens\":{},\"ok\":{ok},\"start\":\"{start}\",\"fenchars\":{},\"moves\":[{}],\"wellformed\":{wf},\"s\":{},\"hk\":[{}]}}",
+                line,
+                tokens_json(line),
+                chars_json(&fen),
+                mv.join(","),
+                a.json(),
+                hr.join(",")
+            ));
+        }));
+        let mut script = lines.join("\n");
+        script.push_str("\nquit\n");
+        let r = std::panic::catch_unwind(|| {
+            let mut rd = std::io::BufReader::new(script.as_bytes());
+            crate::uci::verif_loop(&mut rd);
+        });
+        crate::verif::clear_observer();
+        for e in events.lock().unwrap().iter() {
+            ncmd += 1;
+            writeln!(w, "{e}").unwrap();
+        }
+        if r.is_err() {
+            writeln!(w, "{{\"ev\":\"panic\",\"where\":\"uci_loop session {nsess}\"}}").unwrap();
+        }
+    }
+    w.flush().unwrap();
+    println!("{{\"sessions\":{nsess},\"commands\":{ncmd}}}");
+}
